@@ -175,6 +175,23 @@ def iterLine (ra alts packids cache idxL : String) (fss : List String) : String 
     s!"{";".intercalate toks}|ids={showIds (sortDedup r.acc)}|cache={showIds r.cache}|idx={showIds (sortDedup r.idxLoaded)}"
   | _, _, _, _, _, _ => "bad-arg"
 
+/-- `repack()` as a procedure against a writer: tokens `m` (the repacker's next step) / `i<q>` (the writer's pack `q`
+becomes complete).  Prints the complete packs at the end and whether the procedure finished. -/
+def mexecLine (relist newp init : String) (toks : List String) : String :=
+  match bool? relist, nat? newp, ids? init with
+  | some rl, some np, some init =>
+    let sched? : Option (List (List (Option Reader.Act))) := toks.mapM fun t =>
+      if t = "m" then some [none]
+      else if t.startsWith "i" then (nat? (t.drop 1).toString).map (fun q => [some (.installData q), some (.installIdx q)])
+      else none
+    match sched? with
+    | none => "bad-arg"
+    | some sc =>
+      let f0 : Reader.FS := { idx := init, data := init, loose := [] }
+      let r := Reader.mexec rl np f0 .start sc.flatten
+      s!"{showIds (sortDedup r.1.visible)}|{if r.2 = .done then "done" else "running"}"
+  | _, _, _ => "bad-arg"
+
 def handle (op : String) (args : List String) : Option String :=
   match op, args with
   | "c10.reach", [g, r, l, p, a] => some <|
@@ -193,6 +210,7 @@ def handle (op : String) (args : List String) : Option String :=
       match nat? pstar, ids? prot, pairs? prog with
       | some ps, some pt, some pr => showBool (Reader.checkProgram ps pt false false (pr.map Reader.Act.ofCode))
       | _, _, _ => "bad-arg"
+  | "c10.mexec", relist :: newp :: init :: toks => some (mexecLine relist newp init toks)
   | "c10.consts", [] => some
       s!"{Gen.GC.maxPackRescanAttempts} {Gen.GC.defaultGracePeriod} {Gen.GC.defaultPruneExpire} {Gen.GC.defaultTempfileGracePeriod} {showBool Gen.GC.getRawReprobesPacks} {showBool Gen.GC.containsReprobesPacks} {showBool Gen.GC.iterRescansAfterLoose} {showBool Gen.GC.getObjectMtimeUsesMax} {showBool Gen.GC.completePackRefreshesMtime}"
   | _, _ => none
